@@ -527,7 +527,7 @@ func TestC27(t *testing.T) {
 				rec.Class("as_generated:full_list_accepts")
 			} else {
 				rec.Class("as_generated:full_list_rejects")
-				rec.Class(fmt.Sprintf("as_generated:full_list_rejects:%s:%.90s", era, fullErr))
+				rec.Class(fmt.Sprintf("as_generated:full_list_rejects:%s:%s", era, errClass(fullErr)))
 			}
 		} else {
 			parts := strings.Split(op, "+")
